@@ -28,20 +28,31 @@ def _ladders(repo):
     return Ladder(text, 'expr'), Ladder(text, 'cond')
 
 
+def _all_ladders(repo):
+    """(parser file, start symbol, ladder) for the two parsers of the imperative language: parser2 (expression
+    objects, used for annotated programs and conditions) and parser (HOL terms, used for eval_Sem)"""
+    out = []
+    for rel in (PARSER, 'imperative/parser.py'):
+        text = grammar_text(repo.module(rel))
+        for start in ('expr', 'cond'):
+            out.append((rel, start, Ladder(text, start)))
+    return out
+
+
 def rule_p1(repo):
-    res = RuleResult('C20.P1', 'every infix and prefix operator of the concrete syntax has its own level: no production is open on both sides at one level', floor=7)
-    for lad, name in zip(_ladders(repo), ('expr', 'cond')):
+    res = RuleResult('C20.P1', 'every infix and prefix operator of the concrete syntax has its own level: no production is open on both sides at one level', floor=12)
+    for rel, name, lad in _all_ladders(repo):
         for p, l, tok, r in lad.binary_productions():
             both = l == p.origin and r == p.origin
-            res.add('%s :: %s :: production(%s %s %s)' % (PARSER, name, l, tok, r), not both,
+            res.add('%s :: %s :: production(%s %s %s)' % (rel, name, l, tok, r), not both,
                     'recursive on one side only' if not both else
                     '`%s: %s "%s" %s` is open on both sides: the grammar is ambiguous, the parser resolves it by shifting, and every operator groups to '
-                    'the right regardless of precedence (a * b + c is read as a * (b + c), a - b - c as a - (b - c))' % (p.origin, l, tok, r), '%s:1' % PARSER)
+                    'the right regardless of precedence (a * b + c is read as a * (b + c), a - b - c as a - (b - c))' % (p.origin, l, tok, r), '%s:1' % rel)
         for p, tok, operand in lad.unary_productions():
             loose = operand == p.origin and any(q.origin == p.origin for q, _l, _t, _r in lad.binary_productions())
-            res.add('%s :: %s :: production(%s %s)' % (PARSER, name, tok, operand), not loose,
+            res.add('%s :: %s :: production(%s %s)' % (rel, name, tok, operand), not loose,
                     'operand is at its own level' if not loose else
-                    'the operand of prefix `%s` is the level that also holds the infix operators: -a + b is read as -(a + b)' % tok, '%s:1' % PARSER)
+                    'the operand of prefix `%s` is the level that also holds the infix operators: -a + b is read as -(a + b)' % tok, '%s:1' % rel)
     return res
 
 
